@@ -492,6 +492,20 @@ def c08(w):
             if p["topic_inc"] == q["topic_inc"] and p["e"] < q["b"] and p["ids"] and q["ids"] and not (max(p["ids"]) < min(q["ids"])):
                 f.append(("c08:ids-not-increasing", "a publish that completed (op #%d) before another began (op #%d) got larger ids: %s vs %s"
                           % (p["ev"], q["ev"], p["ids"][:3], q["ids"][:3])))
+    # the messages of one Publish request stay contiguous: no other request's id falls inside its id range
+    # (first deliveries are in id order, so an id in between is a message delivered in between)
+    for p in w.pubs:
+        if len(p["ids"]) < 2:
+            continue
+        lo, hi = min(p["ids"]), max(p["ids"])
+        for q in w.pubs:
+            if q is p or q["topic_inc"] != p["topic_inc"]:
+                continue
+            inside = [i for i in q["ids"] if lo < i < hi]
+            if inside:
+                f.append(("c08:request-not-contiguous", "message %d of another Publish (op #%d) lies inside the id range %d..%d of one Publish request (op #%d)"
+                          % (inside[0], q["ev"], lo, hi, p["ev"])))
+                break
     # first deliveries in id order: within a response, and between responses ordered in real time
     firsts = {}
     seen = {}
@@ -966,10 +980,15 @@ def c16(w):
                     n = split_name(unhx(x.args[0]), b"subscriptions")
                     if n in got:
                         got[n].update(d for (_, _, d, _) in parse_delivs(x.ans[3:].strip()))
-            for pl in payloads:
+            for pl in payloads[:3] + payloads[-3:]:
                 have = [n for n in subs_t if pl in got[n]]
                 if have and len(have) != len(subs_t):
                     f.append(("c16:partial-publish", "the abandoned Publish of %s reached %r but not %r" % (pl[:40], sorted(have), sorted(set(subs_t) - set(have)))))
+            # ... and across its messages: a subscription holds all of them or none
+            for n in subs_t:
+                k = sum(1 for pl in set(payloads) if pl in got[n])
+                if 0 < k < len(set(payloads)):
+                    f.append(("c16:partial-publish:messages", "of the %d messages of an abandoned Publish, %d reached %r" % (len(set(payloads)), k, n)))
     # the probe publish after the scenario must reach every existing subscription
     probe_ids = None
     for x in after:
@@ -1265,6 +1284,87 @@ def pure_round(line, ans):
 PURE_ORACLES = {"names": pure_names, "ext": pure_ext, "tokens": pure_paging, "rounds": pure_round}
 
 
+def c14_dispatch(lines, answers, meta, model_dispatch):
+    """Dispatch correspondence: per message and push subscription, the subscription actor saw exactly
+    the turns the Lean model's `dispatchTurn` issues for the endpoint's behaviours (one ack turn per
+    accepted answer, one nack per other status / broken connection, nothing for an unanswered POST).
+    Returns correspondence failures (strings)."""
+    tl = [a for l, a in zip(lines, answers) if l.strip() == "turnlog"]
+    posts_l = [a for l, a in zip(lines, answers) if l.strip() == "posts"]
+    if not tl or not posts_l:
+        return []
+    sid_name, ack_msg, acks, nacks = {}, {}, {}, {}
+    for ev in tl[-1].split(" ~~ "):
+        t = ev.split(" ")
+        if len(t) < 3 or t[0] != "sub":
+            continue
+        sid = t[1]
+        if t[2] == "new":
+            sid_name[sid] = t[4].encode()
+        elif t[2] == "pull" and "->" in t:
+            for tr in sl(t[t.index("->") + 1], ","):
+                a, m, _ = tr.split("/")
+                ack_msg[(sid, a)] = m
+        elif t[2] == "ack":
+            for a in sl(t[3], ","):
+                m = ack_msg.get((sid, a))
+                if m is not None:
+                    acks[(sid, m)] = acks.get((sid, m), 0) + 1
+        elif t[2] == "modify":
+            for md in sl(t[3], ","):
+                a, v = md.split("=")
+                m = ack_msg.get((sid, a))
+                if m is not None and v == "n":
+                    nacks[(sid, m)] = nacks.get((sid, m), 0) + 1
+    name_sid = {v: k for k, v in sid_name.items()}
+    out = []
+    exp_ack, exp_nack = {}, {}
+    for it in sl(posts_l[-1], " "):
+        parts = it.split("|")
+        if len(parts) != 7:
+            continue
+        tag, mid, outcome = parts[0].lstrip("/"), parts[2], parts[6]
+        if tag not in meta["subs"] or outcome == "102":
+            continue          # 102 never reaches the dispatcher (listed finding)
+        sid = name_sid.get(meta["subs"][tag]["sub"])
+        if sid is None:
+            continue
+        d = model_dispatch(outcome)
+        if d == "ack":
+            exp_ack[(sid, mid)] = exp_ack.get((sid, mid), 0) + 1
+        elif d == "nack":
+            exp_nack[(sid, mid)] = exp_nack.get((sid, mid), 0) + 1
+    for key in sorted(set(exp_ack) | set(acks) | set(exp_nack) | set(nacks)):
+        if name_sid and key[0] not in name_sid.values():
+            continue
+        if exp_ack.get(key, 0) != acks.get(key, 0):
+            out.append("dispatch: message %s on subscription #%s: model issues %d ack turn(s) for the endpoint's answers, the actor saw %d"
+                       % (key[1], key[0], exp_ack.get(key, 0), acks.get(key, 0)))
+        if exp_nack.get(key, 0) != nacks.get(key, 0):
+            out.append("dispatch: message %s on subscription #%s: model issues %d nack turn(s) for the endpoint's answers, the actor saw %d"
+                       % (key[1], key[0], exp_nack.get(key, 0), nacks.get(key, 0)))
+    return out
+
+
+def c14_midround(lines, answers, meta):
+    """Pushing stops when the subscription is deleted, also in the middle of a round."""
+    mr = meta.get("midround")
+    posts_l = [a for l, a in zip(lines, answers) if l.strip() == "posts"]
+    if not mr or len(posts_l) < 3:
+        return []
+    def count(a):
+        return sum(1 for it in sl(a, " ") if it.split("|")[0].lstrip("/") == mr["tag"])
+    before, at, after = count(posts_l[0]), count(posts_l[1]), count(posts_l[2])
+    f = []
+    if before == 0 or before >= mr["n"]:
+        return f          # the round had not started / was over before the delete: nothing to observe
+    # a POST that was already on its way when the deletion completed may still arrive
+    if after > at + 2:
+        f.append(("c14:post-after-delete:midround", "%d message(s) were POSTed to /%s after DeleteSubscription had returned (%d before, %d at the deletion)"
+                  % (after - at, mr["tag"], before, at)))
+    return f
+
+
 def c14_push(lines, answers, meta, model_accepts):
     """Push delivery: POSTs per message follow the script exactly until the first accepted answer,
     never after; payload fields; nothing for deleted / plain subscriptions.
@@ -1347,6 +1447,7 @@ def c14_push(lines, answers, meta, model_accepts):
             if p["attrs"] != m["attrs"]:
                 f.append(("c09:push-attributes", "POST carries attributes %s, published %s" % (p["attrs"], m["attrs"])))
     known = set((m["tag"], d) for d, m in meta["msgs"].items()) | set((meta.get("twins", {}).get(m["tag"]), d) for d, m in meta["msgs"].items())
+    known |= set(tuple(x) for x in meta.get("extra_known", []))
     for p in posts:
         if p["path"] not in meta["subs"]:
             f.append(("c14:post-to-unknown-endpoint", "POST to /%s" % p["path"]))
